@@ -11,7 +11,11 @@ use std::hash::Hash;
 use std::hash::Hasher;
 use std::time::Instant;
 
-pub const VERIF_DIR: &str = "/verif";
+/// root of the verification tree; `DGV_VERIF_DIR` redirects evidence / replays / known findings of a scratch
+/// copy (tools/sweep_copy.sh) so that a long mutant sweep does not disturb /verif
+pub fn verif_dir() -> String {
+  std::env::var("DGV_VERIF_DIR").unwrap_or_else(|_| "/verif".to_string())
+}
 
 // ---------------------------------------------------------------- PRNG
 
@@ -341,7 +345,7 @@ fn case_deadline_secs() -> u64 {
 fn report_stuck_case(i: usize, secs: u64) -> ! {
   let (id, tier, seed) = WATCH_CTX.lock().ok().and_then(|g| g.clone()).unwrap_or(("?".into(), "quick".into(), 1));
   if STUCK_IS_VIOLATION.load(std::sync::atomic::Ordering::Relaxed) {
-    let rdir = format!("{}/replays", VERIF_DIR);
+    let rdir = format!("{}/replays", verif_dir());
     std::fs::create_dir_all(&rdir).ok();
     let rpath = format!("{}/{}-stuck-case{}-seed{}.json", rdir, id, i, seed);
     let body = json!({
@@ -457,7 +461,7 @@ pub struct KnownFinding {
 }
 
 pub fn load_known_findings() -> Vec<KnownFinding> {
-  let path = format!("{}/known_findings.json", VERIF_DIR);
+  let path = format!("{}/known_findings.json", verif_dir());
   let Ok(text) = std::fs::read_to_string(&path) else {
     return vec![];
   };
@@ -642,7 +646,7 @@ impl Report {
       "wall_s": wall,
       "violations": unknown.len(),
     });
-    let dir = format!("{}/evidence", VERIF_DIR);
+    let dir = format!("{}/evidence", verif_dir());
     std::fs::create_dir_all(&dir).ok();
     let path = format!("{}/{}{}.json", dir, self.id, self.evidence_suffix);
     std::fs::write(&path, serde_json::to_string_pretty(&evidence).unwrap())
@@ -665,7 +669,7 @@ impl Report {
       verdict
     );
     if !unknown.is_empty() {
-      let rdir = format!("{}/replays", VERIF_DIR);
+      let rdir = format!("{}/replays", verif_dir());
       std::fs::create_dir_all(&rdir).ok();
       for v in &unknown {
         let h = hash_str(&format!("{}{}", v.signature, v.witness));
